@@ -19,8 +19,11 @@ type GenConfig struct {
 	RefPool         []string // "" = no reference
 	IKPool          []string // "" = no key
 	DryRunPct       int
-	Crashes         int // max crash points
-	Faults          int // max store faults
+	Crashes         int  // max crash points
+	Faults          int  // max store faults
+	ReadFaults      int  // max failing store reads (issued by requests)
+	RevertByRef     bool // reverts may designate their target by the reference it was created under
+	RefBurstPct     int  // percentage of rounds that are a burst of creates from @world sharing one reference (no account lock in common)
 	Cancels         int
 	SmallBatches    bool
 	ExplicitTime    bool
@@ -105,6 +108,23 @@ func genCreate(t *rapid.T, cfg *GenConfig, op *Op) {
 		op.Script = sendScript(amount, asset, "@"+src, "@"+dst) + sendScript("10", asset, "@"+dst, "@"+dst2)
 	case "postings":
 		n := rapid.IntRange(1, 3).Draw(t, "nPostings")
+		if rapid.IntRange(0, 3).Draw(t, "longPostings") == 0 {
+			// a long list (order matters to everything that replays or inverts it): a fan-out from world, or a
+			// chain world -> x1 -> x2 -> ... in which every hop spends what the previous one delivered
+			n = 0
+			m := rapid.IntRange(9, 24).Draw(t, "nLong")
+			chain := rapid.Bool().Draw(t, "chain")
+			prev := "world"
+			for i := 0; i < m; i++ {
+				d := cfg.Accounts[i%len(cfg.Accounts)]
+				if chain {
+					op.Postings = append(op.Postings, ledger.Posting{Source: prev, Destination: d, Asset: asset, Amount: big.NewInt(10)})
+					prev = d
+				} else {
+					op.Postings = append(op.Postings, ledger.Posting{Source: "world", Destination: d, Asset: asset, Amount: big.NewInt(int64(1 + i))})
+				}
+			}
+		}
 		for i := 0; i < n; i++ {
 			s, d := acc("psrc"), acc("pdst")
 			if i == 0 {
@@ -171,6 +191,29 @@ func GenPlan(t *rapid.T, cfg GenConfig) *Plan {
 			n = rapid.IntRange(1, cfg.MaxPerRound).Draw(t, "perRound")
 		}
 		var template *Op
+		if cfg.RefBurstPct > 0 && len(cfg.RefPool) > 0 && rapid.IntRange(0, 99).Draw(t, "refBurst") < cfg.RefBurstPct {
+			// a pure race on one reference: the requests have no account lock in common, so only the
+			// reference reservation and the store lookup order them; some of them are previews
+			ref := ""
+			for _, x := range cfg.RefPool {
+				if x != "" && (ref == "" || rapid.Bool().Draw(t, "burstRef")) {
+					ref = x
+				}
+			}
+			k := rapid.IntRange(2, 4).Draw(t, "burstN")
+			// with previews enabled, one drawn position of the burst is a preview and the others mostly real
+			previewAt := -1
+			if cfg.DryRunPct > 0 {
+				previewAt = rapid.IntRange(0, k).Draw(t, "burstPreviewAt") // k = none
+			}
+			for i := 0; i < k && ref != ""; i++ {
+				o := add(Op{Kind: OpCreate, Barrier: start, Reference: ref})
+				o.Grants = map[string]string{}
+				o.Script = sendScript(fmt.Sprint(1+i), cfg.Assets[0], "@world", "@"+cfg.Accounts[i%len(cfg.Accounts)])
+				o.DryRun = i == previewAt || (cfg.DryRunPct > 0 && rapid.IntRange(0, 5).Draw(t, "burstPreview") == 0)
+			}
+			continue
+		}
 		for i := 0; i < n; i++ {
 			kind := rapid.SampledFrom(cfg.Kinds).Draw(t, "kind")
 			o := add(Op{Kind: kind, Barrier: start})
@@ -185,6 +228,10 @@ func GenPlan(t *rapid.T, cfg GenConfig) *Plan {
 				tag := o.Tag
 				*o = *template
 				o.Tag = tag
+				if cfg.DryRunPct > 0 && rapid.IntRange(0, 2).Draw(t, "dupFlipPreview") == 0 {
+					// the same request once as a preview and once for real, racing each other
+					o.DryRun = !template.DryRun
+				}
 				if cfg.SameIKIdentical && o.IK != "" {
 					o.Tag = template.Tag
 				}
@@ -202,6 +249,13 @@ func GenPlan(t *rapid.T, cfg GenConfig) *Plan {
 			case OpRevert:
 				o.TargetTx = int64(rapid.IntRange(0, 6).Draw(t, "target"))
 				o.Force = rapid.IntRange(0, 3).Draw(t, "force") == 0
+				if cfg.RevertByRef && rapid.Bool().Draw(t, "revertByRef") {
+					for _, r := range cfg.RefPool {
+						if r != "" && (o.TargetRef == "" || rapid.Bool().Draw(t, "otherRef")) {
+							o.TargetRef = r
+						}
+					}
+				}
 			case OpSaveMeta, OpDeleteMeta:
 				if rapid.Bool().Draw(t, "onTx") {
 					o.TargetType = ledger.MetaTargetTypeTransaction
@@ -210,7 +264,10 @@ func GenPlan(t *rapid.T, cfg GenConfig) *Plan {
 					o.TargetType = ledger.MetaTargetTypeAccount
 					o.TargetAcc = rapid.SampledFrom(append([]string{"cfg"}, cfg.Accounts...)).Draw(t, "acc")
 				}
-				if kind == OpSaveMeta {
+				if kind == OpSaveMeta && rapid.IntRange(0, 7).Draw(t, "emptyMeta") == 0 {
+					// a write that sets nothing is still a write: it gets an entry and an event
+					o.Meta = map[string]string{}
+				} else if kind == OpSaveMeta {
 					o.Meta = map[string]string{"tag": o.Tag}
 					if o.TargetAcc == "cfg" {
 						o.Meta["src"] = rapid.SampledFrom(cfg.Accounts[:2]).Draw(t, "cfgSrc")
@@ -222,6 +279,24 @@ func GenPlan(t *rapid.T, cfg GenConfig) *Plan {
 				}
 			}
 			template = o
+		}
+	}
+	if cfg.RevertByRef && rapid.IntRange(0, 2).Draw(t, "reuseAfterRevert") == 0 {
+		// a later attempt on a reference whose holder has been reverted meanwhile (it still holds the reference)
+		var refs []string
+		for _, r := range cfg.RefPool {
+			if r != "" {
+				refs = append(refs, r)
+			}
+		}
+		if len(refs) > 0 {
+			ref := rapid.SampledFrom(refs).Draw(t, "reuseRef")
+			rv := add(Op{Kind: OpRevert, TargetRef: ref, TargetTx: 99, Force: rapid.IntRange(0, 3).Draw(t, "reuseForce") > 0})
+			rv.Barrier = len(p.Ops) - 1
+			cr := add(Op{Kind: OpCreate})
+			cr.Barrier = len(p.Ops) - 1
+			genCreate(t, &cfg, cr)
+			cr.Reference = ref
 		}
 	}
 	nc := cfg.Choices
@@ -242,14 +317,21 @@ func GenPlan(t *rapid.T, cfg GenConfig) *Plan {
 			p.FaultAt = append(p.FaultAt, rapid.IntRange(0, 8).Draw(t, "faultAt"))
 		}
 	}
+	for i := 0; i < cfg.ReadFaults; i++ {
+		if rapid.IntRange(0, 2).Draw(t, "readFault") == 0 {
+			p.ReadFaultAt = append(p.ReadFaultAt, rapid.IntRange(0, 30).Draw(t, "readFaultAt"))
+		}
+	}
 	for i := 0; i < cfg.Cancels; i++ {
 		if rapid.IntRange(0, 2).Draw(t, "cancel") == 0 {
-			p.CancelAt = append(p.CancelAt, [2]int{rapid.IntRange(0, len(p.Ops)-1).Draw(t, "cancelOp"), rapid.IntRange(0, 120).Draw(t, "cancelAt")})
+			// the caller of one request goes away once the request has passed k of its own scheduling points
+			p.CancelAfter = append(p.CancelAfter, [2]int{rapid.IntRange(0, len(p.Ops)-1).Draw(t, "cancelOp"), rapid.IntRange(0, 12).Draw(t, "cancelAfter")})
 		}
 	}
 	if cfg.SmallBatches && rapid.Bool().Draw(t, "smallBatch") {
 		p.BatchSize = rapid.IntRange(1, 3).Draw(t, "batchSize")
 	}
+	p.SlowStore = rapid.IntRange(0, 2).Draw(t, "slowStore") == 0
 	p.CacheSize = rapid.SampledFrom([]int{1, 2, 1024}).Draw(t, "cacheSize")
 	return p
 }
@@ -258,9 +340,9 @@ func GenPlan(t *rapid.T, cfg GenConfig) *Plan {
 func PlanKey(p *Plan) string {
 	var sb strings.Builder
 	for _, o := range p.Ops {
-		fmt.Fprintf(&sb, "%s|%v|%s|%d|%s|%v|%s|%s|%d|%v|%s|%s|%v|%s;", o.Kind, o.DryRun, o.IK, o.Barrier, o.Script, o.Vars, postingsKey(o.Postings), o.Reference, o.TargetTx, o.Force, o.TargetType, o.TargetAcc, o.Meta, o.Key)
+		fmt.Fprintf(&sb, "%s|%v|%s|%d|%s|%v|%s|%s|%d|%v|%s|%s|%v|%s;", o.Kind, o.DryRun, o.IK, o.Barrier, o.Script, o.Vars, postingsKey(o.Postings), o.Reference+">"+o.TargetRef, o.TargetTx, o.Force, o.TargetType, o.TargetAcc, o.Meta, o.Key)
 	}
-	fmt.Fprintf(&sb, "c%v f%v x%v b%d", p.CrashAt, p.FaultAt, p.CancelAt, p.BatchSize)
+	fmt.Fprintf(&sb, "c%v f%v r%v x%v%v b%d s%v", p.CrashAt, p.FaultAt, p.ReadFaultAt, p.CancelAt, p.CancelAfter, p.BatchSize, p.SlowStore)
 	return sb.String()
 }
 
